@@ -51,6 +51,33 @@ def oracle_case(ctx, case, res, base):
                     "persistent leak: emitted + mitigated != baseline emitted", inp)
 
 
+def wholerun_record(ctx, res, rec):
+    """the same clauses on a record of a whole simulation, joined with the baseline program's record"""
+    if not rec["repairable"]:
+        return
+    base = EC.base_fields(rec)
+    inp = {"cfg": res.cfg, "prog": rec["prog"], "sim": rec["sim"], "key": list(rec["key"]), "row": rec["row"],
+           "baseline_row": rec["base"]}
+    if base is None:
+        ctx.violate("C02:wholerun:no-baseline-twin", "program emission has no twin in the baseline program's records", inp)
+        return
+    if rec["mitDays"] < 0:
+        ctx.violate("C02:negative-mitigation", "mitigated volume is negative", inp)
+    if rec["mitDays"] != 0 and not (rec["status"] == "repaired" and rec["by"] not in ("natural", "", "None")):
+        ctx.violate("C02:mitigation-without-program-repair", "non-zero mitigation without program repair", inp)
+    cal_ok = rec["activeDays"] + rec["mitDays"] == base["activeDays"]
+    vol_ok = rec["emitDays"] + rec["mitDays"] == base["emitDays"]
+    if rec["intermittent"]:
+        if not cal_ok:
+            ctx.violate("C02:identity:intermittent:calendar-days", "intermittent leak: calendar-day identity fails", inp)
+        elif not vol_ok:
+            ctx.violate("C02:identity:intermittent-source",
+                        "intermittent repairable source: emitted + mitigated != baseline emitted", inp)
+    elif not vol_ok:
+        ctx.violate("C02:identity:persistent:whole-run", "persistent leak: emitted + mitigated != baseline emitted", inp)
+    ctx.count("wholerun_oracle_evaluated")
+
+
 def run(ctx):
     ctx.rule = ("cases = (start, nrd, delay, kind, N, tag events); structured-exhaustive core over "
                 "N<=8,start in -7..N,nrd<=6,delay<=3,one tag on any day (subsampled by seed in quick) + "
@@ -71,6 +98,7 @@ def run(ctx):
         ctx.count("oracle_evaluated")
     for (c, res, ml, il) in results[:3]:
         ctx.sample({"case": list(c), "impl": il.split(" | ")[0]})
+    EC.wholerun_stage(ctx, 2, 12, wholerun_record)
     ctx.assumptions.append("volumes are day counts x rate x 86.4; rates on the exact grid (rate 1.0)")
 
 
